@@ -110,3 +110,42 @@ class Effects:
                     return True
             return False
         return True
+
+
+def param_written(eff, prog, fname, idx, _seen=None):
+    """may function `fname` write through its idx-th (pointer) parameter, directly or via callees?"""
+    _seen = _seen if _seen is not None else set()
+    if (fname, idx) in _seen:
+        return False
+    _seen.add((fname, idx))
+    if fname not in prog.fns:
+        return True
+    for f in prog.fns[fname]:
+        if idx >= len(f.params):
+            return True
+        pn = f.params[idx]['n']
+        pt = f.params[idx]['t']
+        if pt.startswith('const ') and pt.rstrip().endswith('*') and pt.count('*') == 1:
+            continue
+        if pn in eff.direct(f)[2]:
+            return True
+        for c in f.calls():
+            for ai, a in enumerate(f.args(c)):
+                au = f.unwrap(a)
+                r = lvalue_root(f, au)
+                if r['k'] == 'DeclRefExpr' and r['n'] == pn and r.get('dk') == 'param':
+                    t = au.get('t', '')
+                    if not (t.rstrip().endswith('*') or t.rstrip().endswith(']')) and not (au['k'] == 'UnaryOperator' and au['op'] == '&'):
+                        continue
+                    cal = c.get('callee')
+                    if cal is None:
+                        return True
+                    if cal in ('memcpy', 'memmove', 'strcpy', 'strncpy', 'memset', 'snprintf', 'sprintf', 'fread', 'read') and ai == 0:
+                        return True
+                    if cal in prog.fns:
+                        if param_written(eff, prog, cal, ai, _seen):
+                            return True
+                    # unknown external: assume read-only for common libc readers
+                    elif cal not in ('strlen', 'strcmp', 'strncmp', 'memcmp', 'strstr', 'memcpy', 'memmove', 'strcpy', 'strncpy', 'snprintf', 'printf', 'fwrite', 'write', 'abs'):
+                        return True
+    return False
